@@ -31,7 +31,7 @@ func main() {
 		"C03": {"history", "consumer", "one-packet"},
 		"C07": {"history", "cutmany", "fixed"},
 		"C10": {"malformed", "wire-fuzz"},
-		"C11": {"one-packet", "cut1", "cutmany", "history", "consumer"},
+		"C11": {"one-packet", "cut1", "cutmany", "history", "history-register", "consumer"},
 		"C14": {"cut-offset", "reads-random-cut", "complete", "cut-timeout", "write-fail"},
 	}
 	if fs, ok := families[*prop]; ok {
